@@ -83,6 +83,47 @@ def set_any(k0, k1):
             o = outcome(l, list(data))
             if o[0] == "other_exc": return False
     return True
+HUGE = 10 ** 5000          # beyond the int -> str conversion limit: cannot be rendered in a trail note
+HK_LD = {k: (r.get_loader(Dict[int, int]), r.get_loader(Dict[int, List[int]]), r.get_loader(DefaultDict[int, Optional[int]])) for k, r in RS.items()}
+def huge_key(sel, v):
+    bad = ["x", [v, "x"], None][pick(sel, 3)]
+    for k, ls in HK_LD.items():
+        for l in ls:
+            for data in ({HUGE: bad}, {1: v, -HUGE: bad, HUGE: bad}):
+                o = outcome(l, data)
+                if o[0] == "other_exc": return False
+    return True
+# ---- mappings with non-string keys against every extra policy of a dict-layout model
+from adaptix import name_mapping, ExtraSkip, ExtraForbid, ExtraCollect, ExtraKwargs
+class NK_Plain:
+    def __init__(self, a: int, b: int = 0): self.a, self.b = a, b
+class NK_Kw:
+    def __init__(self, a: int, b: int = 0, **kw): self.a, self.b, self.kw = a, b, kw
+class NK_Rest:
+    def __init__(self, a: int, rest: Any, b: int = 0): self.a, self.b, self.rest = a, b, rest
+class NK_Sat:
+    def __init__(self, a: int, b: int = 0): self.a, self.b = a, b
+def _nk_sat(obj, extra): obj.extra = extra
+def _nk_ext(obj): return getattr(obj, "extra", {})
+NK_CASES = (
+    (NK_Plain, [name_mapping(NK_Plain, extra_in=ExtraSkip())]),
+    (NK_Plain, [name_mapping(NK_Plain, extra_in=ExtraForbid())]),
+    (NK_Kw, [name_mapping(NK_Kw, extra_in=ExtraKwargs())]),
+    (NK_Rest, [name_mapping(NK_Rest, extra_in="rest")]),
+    (NK_Sat, [name_mapping(NK_Sat, extra_in=_nk_sat, extra_out=_nk_ext)]),
+    (NK_Plain, [name_mapping(NK_Plain, map={"b": ("n", "b")}, extra_in=ExtraForbid())]),
+)
+NK_LD = [{k: r.get_loader(cls) for k, r in six_retorts(rec).items()} for cls, rec in NK_CASES]
+NK_KEYS = (5, None, (1,), 1.5, b"x", True, "zz", -1)
+def nonstr_keys(case, k0, k1, v, bad, nested):
+    if bad: v = "x"
+    for k, l in NK_LD[case].items():
+        data = {"a": v, NK_KEYS[pick(k0, len(NK_KEYS))]: 2, NK_KEYS[pick(k1, len(NK_KEYS))]: v}
+        if nested: data["n"] = {"b": v, NK_KEYS[pick(k0, len(NK_KEYS))]: 1}
+        o = outcome(l, data)
+        if o[0] == "other_exc": return dbg(("NK other", k, o[1]))
+        if o[0] == "load_error" and not only_load_errors(o[2]): return dbg(("NK leaves", k))
+    return True
 PATTERNS = ("a{4294967296}", "(", "a{2,1}", "[", "(?P<x>a)(?P<x>b)", "a" * 3 + "{65536}{65536}", chr(92), "(?z)", "*", "a**")
 PAT_LD = {k: r.get_loader(re.Pattern) for k, r in RS.items()}
 def pattern_pool(i):
@@ -129,6 +170,23 @@ def lit_c04(name, kind, d):
     mods.append(ml)
     mx.ob("set_any_unhashable", "k0: int, k1: int", "return set_any(k0, k1)", pre=["0 <= k0 < 6", "0 <= k1 < 6"], timeout=60,
           family="Set[Any] / FrozenSet[object] with hashable and unhashable elements", bounds="2 elements from (int, list, dict, tuple, None, str); 6 modes")
+    for case, cname in enumerate(("skip", "forbid", "kwargs", "extra_target", "saturator", "forbid_nested")):
+        mx.ob(f"nonstr_keys_{cname}", "k0: int, k1: int, v: int, bad: bool, nested: bool", f"return nonstr_keys({case}, k0, k1, v, bad, nested)",
+              pre=["0 <= k0 < 8", "0 <= k1 < 8"], timeout=120,
+              family="mappings with non-string keys x every extra policy of a dict-layout model",
+              bounds="model with extra policy " + cname + "; 2 unknown keys from an 8-value pool (int, None, tuple, float, bytes, bool, str, negative int), "
+                     "optionally repeated in a nested crown; field value symbolic int or a rejected str; 6 modes")
+    mx.nat("huge_trail_key", '''
+def nat_huge_trail_key():
+    bad = [{"sel": str(sel), "v": str(v)} for sel in range(3) for v in (0, -1, 7) if not huge_key(sel, v)]
+    return {"status": "REFUTED" if bad else "CONFIRMED", "cexs": bad[:5], "evaluations": 9 * 6 * 3 * 2,
+            "note": "labelled native enumeration: no data dimension (the defect class is value-independent); CrossHair defers repr() and "
+                    "re-evaluates it outside the traced try block, so the traced run cannot model this path"}
+
+def chk_huge_trail_key(sel, v):
+    return huge_key(sel, v)
+''', timeout=60, family="dict keys that cannot be rendered in the trail note (int beyond the str conversion limit; labelled enumeration)",
+           bounds="Dict[int, int] / Dict[int, List[int]] / DefaultDict[int, Optional[int]] with keys +-10**5000 and a failing value; 6 modes; native")
     mx.ob("pattern_pool", "i: int", "return pattern_pool(i)", pre=["0 <= i < 10"], timeout=60, family="re.Pattern loader on malformed / over-limit patterns",
           bounds="10 patterns incl. a repeat count beyond the engine limit")
     mods.append(mx)
